@@ -36,12 +36,67 @@ EXPLANATION = (
 )
 
 
+def _index_round_trip(ctx, ck, cls) -> None:
+    """X6: the index expression the operator applies is the one it was built with, entry by entry.  The constructor and the
+    `indices` accessor are interpreted (sa/axinterp.py) on every index expression of up to three entries over two integer
+    arrays, a boolean mask, an integer, a slice, the ellipsis and None."""
+    import itertools
+
+    from ..axinterp import AxArr, Interp, Opaque, Raised, Undecided, UNK
+
+    world, table = ctx.world, ctx.table
+    A = AxArr(((frozenset({'a'}), 7),), 'int32')
+    B = AxArr(((frozenset({'b'}), 5),), 'int32')
+    M = AxArr(((frozenset({'m'}), 3),), bool)
+    entries = [A, B, M, 0, slice(None), Ellipsis, None]
+    names = {id(A): 'rows', id(B): 'cols', id(M): 'mask'}
+
+    def text(t):
+        return '(' + ', '.join(names.get(id(e), repr(e)) for e in t) + ')'
+
+    wrong: list[str] = []
+    undecided: list[str] = []
+    n = 0
+    for k in (1, 2, 3):
+        for t in itertools.product(entries, repeat=k):
+            if sum(e is Ellipsis for e in t) > 1 or len({id(e) for e in t if isinstance(e, AxArr)}) < sum(isinstance(e, AxArr) for e in t):
+                continue
+            n += 1
+            it = Interp(world, table, budget=20_000)
+            try:
+                op = it.construct(cls, t, in_structure=Opaque('in'), out_structure=Opaque('out'))
+                got = it.get_attr(op, 'indices', None)
+            except Raised:
+                continue  # refused: not an application of a wrong expression
+            except Undecided as exc:
+                undecided.append(f'{text(t)}: {exc}')
+                continue
+            if got is UNK or not isinstance(got, (tuple, list)):
+                undecided.append(f'{text(t)}: the stored index expression cannot be followed')
+                continue
+            same = len(got) == len(t) and all((g is e) or (not isinstance(e, AxArr) and not isinstance(g, AxArr) and type(g) is type(e) and g == e) for g, e in zip(got, t))
+            if not same:
+                wrong.append(f'built with {text(t)}, applies {text(tuple(got))}')
+        if len(undecided) > 3:
+            break
+    r = table.resolve(cls, 'indices')
+    target = r.node if r is not None and isinstance(r.node, ast.AST) else cls.node
+    if undecided:
+        ck.incomplete('X6', target, f'the index expression kept by the operator could not be followed for {len(undecided)} of {n} expressions, e.g. {undecided[0]}', instance='index expression round trip')
+    else:
+        ck.expect('X6', not wrong, target, f'for all {n} index expressions of up to three entries the operator applies the expression it was built with, entry by entry',
+                  f'the operator does not apply the index expression it was built with for {len(wrong)} of {n} expressions, e.g. {wrong[0] if wrong else ""} '
+                  '(x[rows, cols] becomes x[cols, rows]: out-of-range values are clamped silently)', instance='index expression round trip')
+    ck.floor('X6', n, 200, 'index expressions')
+
+
 def run(ctx, ck) -> None:
     world, table = ctx.world, ctx.table
     ck.trust('JAX native indexing x[indices] selects elements; its linear transpose accumulates the selected positions into zeros (scatter-add)')
     index = table.get(f'{IDX}.IndexOperator')
     pack = table.by_name('PackOperator')
     kinds = all_mv(ctx)
+    _index_round_trip(ctx, ck, index)
     # ------------------------------------------------------------------ X1
     for cls in (index, pack):
         s = kinds.get(cls.qual)
